@@ -410,6 +410,7 @@ func main() {
 
 	writeIfChanged(filepath.Join(outdir, "Funcs.lean"), genFuncs(pkgs, envs))
 	writeIfChanged(filepath.Join(outdir, "Facts.lean"), genFacts(pkgs))
+	writeIfChanged(filepath.Join(outdir, "Strings.lean"), genStrings(pkgs))
 }
 
 func writeIfChanged(path, content string) {
